@@ -57,6 +57,7 @@ def run(ctx):
     grids = GRIDS_Q if ctx.quick else GRIDS_T
     gen = G.LatticeMazeGenerators.gen_wilson
     b = 0
+    shared_shape = np.array([1, 1])
     for (R, C) in grids:
         slots = ref.lattice_edge_slots(R, C)
         weights = np.array([1 << i for i in range(len(slots))], dtype=np.int64)
@@ -73,7 +74,13 @@ def run(ctx):
             if blk % 4 == 3:
                 np.random.rand(int(ctx.case_seed("consume", R, C, blk) % 97) + 1)
                 ctx.tally("c19:consumed-stream-blocks")
-            shape = np.array([R, C])
+            if ctx.shard % 2:
+                # one shape array for the whole sweep, grown in place from grid to grid (half of the shards)
+                shared_shape[0] = R; shared_shape[1] = C
+                shape = shared_shape
+                ctx.tally("c19:blocks-with-one-shape-array-updated-in-place")
+            else:
+                shape = np.array([R, C])
             cnt: dict[int, int] = {}
             m = min(BLOCK, total - blk * BLOCK)
             for _ in range(m):
